@@ -138,6 +138,38 @@ def gen_cases(ctx, scale):
             hs.append(h)
         if nkeys:
             out.append((0, 'tbl %d %d %s' % (L, newL, ' '.join(map(str, hs))), None))
+            # chained generations (throwing hash functor during the first Reserve), removals before growth, call counts
+            L1 = L + r.choice([1, 1, 2]); L2 = min(11, L1 + r.choice([1, 2, 6]))
+            budget = r.choice([-1, 0, 1, 2, r.below(nkeys + 1), r.below(nkeys + 1)])
+            rem = sorted(set(r.range(1, nkeys) for _ in range(r.below(1 + nkeys // 2))))
+            hs2 = hs
+            if r.chance(1, 2):    # heavy collisions: long displacements -> empty hash-probe bytes -> the full getter is needed -> it can throw
+                hs2 = [((h & ~0xFFFF) & M64) | r.below(2) for h in hs]
+                budget = r.choice([0, 1, 2, 3, r.below(nkeys + 1)])
+            out.append((0, 'tbl2 %d %d %d %d %d %s %s' % (L, L1, L2, budget, len(rem), ' '.join(map(str, rem)), ' '.join(map(str, hs2))), None))
+    # LimP4 table level (both hashCount builds): fill, remove, Reserve, compare every bucket incl. memPoolIndex / WasFull and the call count
+    for H in (4, 6):
+        for i in range(30 * scale):
+            L = r.choice([0, 1, 2, 3, 4, 5, 2, 3]); L1 = min(11, L + r.choice([2, 2, 3, 4, 6, 7]))   # LimP4 tables of < 2^20 buckets grow by 2 doublings at least
+            cap = (1 << L) * 2
+            nk = r.range(max(1, cap // 2), cap)
+            lowbits = r.choice([L, L1, max(0, L - 1), 1, 12])
+            hs = []
+            for _ in range(nk):
+                h = rnd_hash(r, edges)
+                if r.chance(1, 2): h = (h & ~((1 << 16) - 1) & M64) | r.below(1 << lowbits)
+                hs.append(h)
+            rem = sorted(set(r.range(1, nk) for _ in range(r.below(1 + nk // 2)))) if r.chance(1, 2) else []
+            out.append((H, 'tp4 %d %d %d %d %s %s' % (H, L, L1, len(rem), ' '.join(map(str, rem)), ' '.join(map(str, hs))), None))
+    # growing FROM 2 buckets (probe shift 0: every element needs the full getter -> throwing getter -> chained generations)
+    for i in range(12 * scale):
+        nk = r.range(2, 5); hs = [rnd_hash(r, edges) for _ in range(nk)]
+        L1 = r.choice([2, 3]); L2 = L1 + r.choice([1, 2, 7])
+        out.append((0, 'tbl2 1 %d %d %d 0 %s' % (L1, L2, r.below(nk), ' '.join(map(str, hs))), None))
+    # chains through 256 -> 512 -> 1024 buckets (the byte written at 512 buckets from a reconstructed code is dead)
+    for i in range(2 * scale):
+        nk = r.range(150, 400); hs = [r.next() for _ in range(nk)]
+        out.append((0, 'tbl2 8 9 %d -1 0 %s' % (r.choice([10, 11]), ' '.join(map(str, hs))), None))
     # ---- BucketOne, BucketBase, small pure functions
     for i in range(n // 6):
         h = rnd_hash(r, edges)
@@ -313,7 +345,7 @@ def run(ctx):
     for c in allc[::max(1, len(allc) // 6)][:6]:
         ctx.add_sample(c[:300])
     ctx.coverage['input_distribution'] = {k: sum(1 for c in allc if c.startswith(k)) for k in
-                                          ('o2add', 'o2rem', 'o2get', 'p4set', 'p4rem', 'p4get', 'p4seq', 'tbl', 'one', 'start', 'next', 'short', 'set')}
+                                          ('o2add', 'o2rem', 'o2get', 'p4set', 'p4rem', 'p4get', 'p4seq', 'tbl', 'tp4', 'one', 'start', 'next', 'short', 'set')}
     return ctx.finish(rule=RULE)
 
 RULE = ('cases = random + boundary (h: 0,1,2^k-1,2^k,2^k+1, bytes of ones/zeros at every position, all-ones; L: 0..63 aimed at the '
